@@ -188,6 +188,88 @@ type c15Op struct {
 	Raw  bool   // insert as raw node (lazily parsed later) or as constructed node
 	Rec  bool
 	Any  interface{}
+	Conv int // which conversion "Interface" stands for
+}
+
+var c15ConvNames = []string{"Interface", "InterfaceUseNumber", "InterfaceUseNode", "Map/Array", "MapUseNumber/ArrayUseNumber", "MapUseNode/ArrayUseNode"}
+
+// c15Convert is one of the conversions to Go values; all of them must describe the same tree.
+func c15Convert(t *ast.Node, conv int) (interface{}, error) {
+	ty := t.TypeSafe()
+	nodes := func(v interface{}) (interface{}, error) {
+		// by-value children: render each through its own MarshalJSON
+		switch x := v.(type) {
+		case map[string]ast.Node:
+			m := map[string]json.RawMessage{}
+			for k, n := range x {
+				nn := n
+				b, err := nn.MarshalJSON()
+				if err != nil {
+					return nil, err
+				}
+				m[k] = b
+			}
+			return m, nil
+		case []ast.Node:
+			a := []json.RawMessage{}
+			for _, n := range x {
+				nn := n
+				b, err := nn.MarshalJSON()
+				if err != nil {
+					return nil, err
+				}
+				a = append(a, b)
+			}
+			return a, nil
+		case ast.Node:
+			b, err := x.MarshalJSON()
+			return json.RawMessage(b), err
+		}
+		return v, nil
+	}
+	if conv == 2 || conv == 5 {
+		// copies of partially parsed children share their parse stack with the original
+		// (known finding F14): hand out copies of fully parsed children only
+		t.LoadAll()
+	}
+	switch conv {
+	case 1:
+		return t.InterfaceUseNumber()
+	case 2:
+		v, err := t.InterfaceUseNode()
+		if err != nil {
+			return nil, err
+		}
+		return nodes(v)
+	case 3, 4, 5:
+		switch ty {
+		case ast.V_OBJECT:
+			switch conv {
+			case 3:
+				return t.Map()
+			case 4:
+				return t.MapUseNumber()
+			}
+			v, err := t.MapUseNode()
+			if err != nil {
+				return nil, err
+			}
+			return nodes(v)
+		case ast.V_ARRAY:
+			switch conv {
+			case 3:
+				return t.Array()
+			case 4:
+				return t.ArrayUseNumber()
+			}
+			v, err := t.ArrayUseNode()
+			if err != nil {
+				return nil, err
+			}
+			return nodes(v)
+		}
+	}
+	return t.Interface()
 }
 
 var c15Names = []string{"Get", "Index", "IndexPair", "Len", "Values", "Properties", "ForEach", "Interface", "MarshalJSON",
@@ -213,6 +295,8 @@ func (o c15Op) String() string {
 		s += fmt.Sprintf("(dst=%d,src=%d)", o.I, o.J)
 	case 17:
 		s += fmt.Sprintf("(%v)", o.Rec)
+	case 7:
+		s += "(" + c15ConvNames[o.Conv] + ")"
 	}
 	return s
 }
@@ -531,7 +615,7 @@ func applyImpl(root *ast.Node, o c15Op, holes bool) (out string) {
 		}
 		return strings.Join(p, ";")
 	case 7:
-		v, err := t.Interface()
+		v, err := c15Convert(t, o.Conv)
 		if err != nil {
 			return "<interface-error>"
 		}
@@ -649,7 +733,7 @@ var c15Anys = []interface{}{5, "any", []int{1, 2}, map[string]interface{}{"x": 1
 func runC15(c *Ctx) Result {
 	t := c.T
 	dup := t.Draw(simrt.Knobs, 6) == 0 && c.Cfg["nodup"] == ""
-	g := &gen{t: t, o: genOpts{MaxDepth: 3, MaxWidth: 5, Escapes: true, Spaces: true, BigObject: true, DupKeys: dup}}
+	g := &gen{t: t, o: genOpts{MaxDepth: 3, MaxWidth: 5, Escapes: true, Spaces: true, BigObject: true, BigArray: true, DupKeys: dup}}
 	doc := g.Container()
 	model, err := parseJV(doc)
 	if err != nil {
@@ -739,6 +823,9 @@ func runC15(c *Ctx) Result {
 		o.Raw = g.d(2) == 0
 		o.Rec = g.d(2) == 0
 		o.Any = c15Anys[g.d(len(c15Anys))]
+		if o.Kind == 7 {
+			o.Conv = g.d(len(c15ConvNames))
+		}
 		if dup && o.Kind == 7 {
 			o.Kind = 8 // Interface on duplicate keys has no single defined answer
 		}
